@@ -11,6 +11,7 @@ import (
 	"golang.org/x/exp/slices"
 
 	"github.com/mgtv-tech/redis-GunYu/config"
+	pkgCommon "github.com/mgtv-tech/redis-GunYu/pkg/common"
 	"github.com/mgtv-tech/redis-GunYu/pkg/log"
 	"github.com/mgtv-tech/redis-GunYu/pkg/metric"
 	"github.com/mgtv-tech/redis-GunYu/pkg/redis"
@@ -565,6 +566,10 @@ func (ri *RedisInput) readChannel(wait usync.WaitCloser, readerOffset StartPoint
 	reader, err := ri.channel.NewReader(readerOffset.ToOffset())
 	ri.logger.Debugf("channel.NewReader : offset(%v), err(%v)", readerOffset, err)
 	if err != nil {
+		if errors.Is(err, pkgCommon.ErrCorrupted) {
+			// the store found a damaged closed segment (verifyCrc) : Run drops the cache for ErrCorrupted only
+			err = errors.Join(ErrCorrupted, err)
+		}
 		wait.Close(err)
 		return nil
 	}
